@@ -81,6 +81,60 @@ def only_through_surrogate(expr, inst, defs, depth=4):
     return surrogate and not direct
 
 
+def rooted_at(e, name, defs, depth=4):
+    """is the container expression e rooted at the local/parameter `name` (name, name.attr, name.__dict__, vars(name), a local bound to one of those)?"""
+    while True:
+        if isinstance(e, ast.Attribute):
+            e = e.value
+        elif isinstance(e, ast.Subscript):
+            e = e.value
+        elif isinstance(e, ast.Call) and isinstance(e.func, ast.Name) and e.func.id == 'vars' and e.args:
+            e = e.args[0]
+        else:
+            break
+    if isinstance(e, ast.Name):
+        if e.id == name:
+            return True
+        if depth > 0:
+            ds = [d for d in defs.get(e.id, []) if isinstance(d, ast.AST)]
+            return bool(ds) and all(rooted_at(d, name, defs, depth - 1) for d in ds)
+    return False
+
+
+LOOKUPS = ('get', 'setdefault', 'pop', '__getitem__', '__setitem__', 'update')
+
+
+def shared_lookups(model, cls, f, expr, defs, seen=None, depth=4):
+    """keyed lookups (x[k], x.get(k), ...) reached from expr whose container is owned by the descriptor (rooted at self): one descriptor serves every
+    instance of the class, and a mapping finds its keys by hash/==, so whatever the key is derived from, the slot is not *the instance's own*"""
+    seen = seen if seen is not None else set()
+    selfn = f.params[0]
+    out = []
+
+    def scan(e, level):
+        if isinstance(e, tuple) or not isinstance(e, ast.AST):
+            return
+        for n in ast.walk(e):
+            if isinstance(n, ast.Subscript) and rooted_at(n.value, selfn, defs):
+                out.append(n)
+            elif isinstance(n, ast.Call) and isinstance(n.func, ast.Attribute) and n.func.attr in LOOKUPS and rooted_at(n.func.value, selfn, defs) \
+                    and not (isinstance(n.func.value, ast.Name) and n.func.value.id == selfn):
+                out.append(n)
+            elif isinstance(n, ast.Call) and isinstance(n.func, ast.Attribute) and isinstance(n.func.value, ast.Name) and n.func.value.id == selfn:
+                h = cls.methods.get(n.func.attr)
+                if h is not None and h.qualname not in seen:
+                    seen.add(h.qualname)
+                    hd = local_defs(h.node)
+                    for r in walk_shallow(h.node):
+                        if isinstance(r, ast.Return) and r.value is not None:
+                            out.extend(shared_lookups(model, cls, h, r.value, hd, seen, depth))
+            elif isinstance(n, ast.Name) and isinstance(n.ctx, ast.Load) and level < depth:
+                for d in defs.get(n.id, []):
+                    scan(d, level + 1)
+    scan(expr, 0)
+    return out
+
+
 def guarded_by_instance_none(f, ret, inst):
     """`if instance is None: return self` - class-level access idiom"""
     for n in walk_shallow(f.node):
@@ -123,10 +177,19 @@ def check(run, model, tier):
             ok = any(mentions_name(a, inst) for a in list(t.args) + [k.value for k in t.keywords]) or \
                 mentions_name(t.func, inst)
             why = 'the value is handed to %s without the instance: it cannot be stored per instance' % norm(t.func)
+            if ok and shared_lookups(model, cls, s, t, sdefs):
+                ok = False
+                why = ('__set__ stores the value through %s: a mapping owned by the descriptor (one object for all instances of the class), where keys are found by hash/==: '
+                       'instances that compare equal share one slot' % norm(t.func))
         else:
             ok = depends_on(t, {inst}, sdefs)
             why = ('__set__ stores the value in %s, which does not depend on `%s`: the descriptor is one object per class, '
                    'so every instance shares the value' % (norm(t), inst))
+            if ok and not only_through_surrogate(t, inst, sdefs) and shared_lookups(model, cls, s, t, sdefs):
+                ok = False
+                why = ('__set__ stores the value in %s: a mapping owned by the descriptor (one object for all instances of the class) keyed by something derived from the '
+                       'instance. A mapping finds keys by hash/==, not identity: two instances that compare equal (a class with value-based __eq__/__hash__) share one '
+                       'slot, so assigning on one changes what the other reads' % norm(t))
             if ok and only_through_surrogate(t, inst, sdefs):
                 ok = False
                 why = ('__set__ stores the value under a key derived from id()/hash() of the instance (%s) in storage owned by the descriptor: such a key is unique only among '
@@ -145,9 +208,14 @@ def check(run, model, tier):
         # the first element is the value (the `_, _lock = obj.attr` form returns (value, lock))
         v = vals[0]
         ok = value_depends(model, cls, g, v, [inst], gdefs)
-        run.inst('DESC.instance-storage', g, 'return ' + norm(v), ok,
-                 '' if ok else '__get__ returns %s, which is not selected by `%s`: all instances read the same storage' % (norm(v), inst),
-                 node=r, obligation=True)
+        why = '__get__ returns %s, which is not selected by `%s`: all instances read the same storage' % (norm(v), inst)
+        if ok:
+            sh = shared_lookups(model, cls, g, v, gdefs)
+            if sh:
+                ok = False
+                why = ('__get__ returns a value looked up in %s: a mapping owned by the descriptor (shared by all instances of the class); the lookup is by hash/== of the key, '
+                       'so instances that compare equal - or a key unique only among live objects - read each other\'s value' % norm(sh[0]))
+        run.inst('DESC.instance-storage', g, 'return ' + norm(v), ok, '' if ok else why, node=r, obligation=True)
     # ---- "no instance" (class-level access) is decided by `instance is None`, never by the truth value of the instance: an instance may be falsy
     # (empty container, __bool__ False) and would then be treated as "no instance" and share the descriptor's own storage with every other falsy instance
     run.rule('DESC.none-test', 'the instance parameter is tested with `is None` / `is not None` only, never by truthiness')
